@@ -79,6 +79,24 @@ func c14Step[K comparable](kit keyKit[K], n, op int) {
 		vf.Assert("get-value", mp.GetValue(k) == exp)
 		got := mp.GetValues(col.List[K](nil).MakeFromArray([]K{k, k})).AsArray()
 		vf.Assert("get-values", vf.And(len(got) == 2, vf.And(got[0] == exp, got[1] == exp)))
+		// a longer request mixing two arbitrary keys with stored ones: position i of the result belongs to key i
+		k2 := kit.fresh("key2")
+		req := []K{k2, k}
+		if n > 0 {
+			req = append(req, m.ks[0], k2, m.ks[n-1])
+		}
+		got2 := mp.GetValues(col.List[K](nil).MakeFromArray(req)).AsArray()
+		okv := len(got2) == len(req)
+		if okv {
+			for i, q := range req {
+				e := 0
+				if p := m.find(kit, q); p >= 0 {
+					e = m.vs[p]
+				}
+				okv = vf.And(okv, got2[i] == e)
+			}
+		}
+		vf.Assert("get-values-positionwise", okv)
 		checkMap("get", kit, mp, m)
 	case 2:
 		got := mp.RemoveValue(k)
